@@ -72,8 +72,16 @@ P = 'impl Packet'
 
 
 def build(repo):
-    R = common.registry
     u = Unit(NAME, repo)
+    populate(u)
+    u.finish(common.HEAD)
+    return u
+
+
+def populate(u, extra_items=None, extra_packet_fns=(), extra_spec=''):
+    """Header + Packet accessor layer under contract; other units (resp, ...) build on it by passing
+    further items to extract before assembly and adding their own contracts afterwards."""
+    R = common.registry
     u.prelude('std_stubs.rs', 'deque_stubs.rs', 'views.rs', 'wire.rs')
     u.raw(R.class_spec() + R.option_spec(), 'spec/registry.py')
     u.raw(common.HEADERRAW_TRYFROM_SPEC + SPEC, 'units/acc.py')
@@ -82,12 +90,28 @@ def build(repo):
     common.packet_struct(u)
     u.impl_fns('packet.rs', 'impl Packet', ['new', 'set_token', 'get_token', 'set_option', 'get_option', 'get_first_option',
                                             'add_option', 'clear_option', 'clear_all_options',
-                                            'add_option_as', 'get_first_option_as', 'set_observe_value', 'get_observe_value'])
+                                            'add_option_as', 'get_first_option_as', 'set_observe_value', 'get_observe_value'] + list(extra_packet_fns))
     u.prelude('uint.rs')
     u.raw(TYPED, 'units/acc.py')
     u.item('option_value.rs', 'pub trait OptionValueType')
     u.expand_macro('option_value.rs', 'option_value_uint_impl', only=['OptionValueU16', 'OptionValueU32'])
+    if extra_spec:
+        u.raw(extra_spec, 'extra spec')
+    if extra_items:
+        extra_items(u)
     u.assemble()
+    u.expand_derive_default('Packet')
+    u.contract(('impl Default for Packet', 'default'), '''        ensures r.header.ver_type_tkl == 0x40, r.header.code == MessageClass::Request(RequestType::Get), r.header.message_id == 0,
+            r.token@ == Seq::<u8>::empty(), r.options@ == Map::<u16, VecDeque<Vec<u8>>>::empty(), r.payload@ == Seq::<u8>::empty()''', props=['C07', 'C15'])
+    u.contract(('impl Default for Header', 'default'), '        ensures r.ver_type_tkl == 0x40, r.code == MessageClass::Request(RequestType::Get), r.message_id == 0', props=['C07', 'C15'])
+    u.contract(('impl Default for HeaderRaw', 'default'), '        ensures r.ver_type_tkl == 0x40, r.code == 1, r.message_id == 0', props=['C07', 'C15'])
+    u.contract((P, 'new'), '''        ensures r.header.ver_type_tkl == 0x40, r.header.code == MessageClass::Request(RequestType::Get), r.header.message_id == 0,
+            r.token@ == Seq::<u8>::empty(), opts_view(r.options) == Map::<u16, Seq<Seq<u8>>>::empty(), r.payload@ == Seq::<u8>::empty()''', props=['C07', 'C15'])
+    u.body_end((P, 'new'), '')
+    u.replace_in((P, 'new'), 'tail-expression-named', r'Default::default\(\)\s*\}$', '''let r: Packet = Default::default();
+        proof { lemma_view_empty(r.options); }
+        r
+    }''')
     common.common_rules(u)
     common.header_contracts(u, PROPS)
     u.rule('R12:unreachable', r'_ => unreachable!\(\),',
@@ -213,5 +237,3 @@ def build(repo):
                 (b.len() > 4 ==> r->0 is Err) && (b.len() <= 4 ==> r->0 is Ok && r->0->Ok_0 as nat == be_val(b)) })''', props=['C06', 'C19'])
     u.replace_in((P, 'get_observe_value'), 'R18:closure-contract', r'\|option\| option\.map\(\|value\| value\.0\)',
                  '|option: Result<OptionValueU32, IncompatibleOptionValueFormat>| -> (o: Result<u32, IncompatibleOptionValueFormat>) ensures option is Err ==> o is Err, option is Ok ==> o is Ok && o->Ok_0 == option->Ok_0.0 { option.map(|value: OptionValueU32| -> (x: u32) ensures x == value.0 { value.0 }) }')
-    u.finish(common.HEAD)
-    return u
